@@ -95,7 +95,7 @@ func check(id string, args []string) (code int) {
 	}
 	c := props.NewCtx(tier)
 	switch id {
-	case "C03", "C09", "C10", "C20":
+	case "C03", "C04", "C05", "C09", "C10", "C20":
 		c.QuickArm64 = true
 	}
 	defer func() {
